@@ -40,6 +40,13 @@ impl BlockDecoder {
 
         match oti.fec_encoding_id {
             oti::FECEncodingID::NoCode => {
+                // The encoding symbol ID is a 16-bit field
+                if nb_source_symbols > u16::MAX as u32 + 1 {
+                    return Err(FluteError::new(format!(
+                        "Source block of {} symbols is not supported by the No-Code scheme",
+                        nb_source_symbols
+                    )));
+                }
                 let codec = nocode::NoCodeDecoder::new(nb_source_symbols as usize);
                 self.decoder = Some(Box::new(codec));
             }
@@ -60,10 +67,23 @@ impl BlockDecoder {
                 self.decoder = Some(Box::new(codec));
             }
             oti::FECEncodingID::ReedSolomonGF2M => {
-                log::warn!("Not implemented")
+                return Err(FluteError::new("Reed Solomon GF(2^m) is not implemented"));
             }
             oti::FECEncodingID::RaptorQ => {
                 if let Some(SchemeSpecific::RaptorQ(scheme)) = oti.scheme_specific.as_ref() {
+                    // Parameters outside these ranges make the RaptorQ decoder panic
+                    if nb_source_symbols == 0
+                        || nb_source_symbols > 56403
+                        || oti.encoding_symbol_length == 0
+                        || scheme.symbol_alignment == 0
+                        || oti.encoding_symbol_length % scheme.symbol_alignment as u16 != 0
+                        || scheme.sub_blocks_length == 0
+                    {
+                        return Err(FluteError::new(format!(
+                            "RaptorQ parameters are not valid nb_source_symbols={} encoding_symbol_length={} symbol_alignment={} sub_blocks_length={}",
+                            nb_source_symbols, oti.encoding_symbol_length, scheme.symbol_alignment, scheme.sub_blocks_length
+                        )));
+                    }
                     let codec = fec::raptorq::RaptorQDecoder::new(
                         sbn,
                         nb_source_symbols as usize,
@@ -78,6 +98,14 @@ impl BlockDecoder {
             oti::FECEncodingID::Raptor => {
                 if oti.scheme_specific.is_none() {
                     return Err(FluteError::new("Raptor Scheme not found"));
+                }
+
+                // Outside this range the Raptor decoder panics
+                if nb_source_symbols == 0 || nb_source_symbols > 8192 {
+                    return Err(FluteError::new(format!(
+                        "Source block of {} symbols is not supported by the Raptor scheme",
+                        nb_source_symbols
+                    )));
                 }
 
                 let codec = fec::raptor::RaptorDecoder::new(nb_source_symbols as usize, block_size);
